@@ -252,6 +252,9 @@ func c07Strata() []*gast.Grammar {
 		mk(r("A", gast.Rec(gast.Ref("B"), gast.Ref("R"), "L1")), r("B", gast.S(gast.L("x"), gast.Ref("C"))), r("C", gast.Thr("L1")), r("R", gast.Ref("C"))),
 		mk(r("Stmt", gast.Rec(gast.S(gast.Ref("Expr"), gast.L(";")), gast.Ref("Resync"), "L1")), r("Expr", gast.C(gast.Plus(gast.Cl(gast.Chars("01"))), gast.Thr("L1"))),
 			r("Resync", gast.S(gast.Star(gast.Cl(&gast.ClassSpec{Chars: []rune(";01"), Inverted: true})), gast.Ref("Stmt")))),
+		// a rule defined twice; only the later definition (the one that counts) is left-recursive / is not
+		mk(r("S", gast.S(gast.Ref("List"), gast.NotE(gast.Dot()))), r("List", gast.L("x")), r("Item", gast.Cl(gast.Chars("ab"))), r("List", gast.C(gast.S(gast.Ref("List"), gast.L(","), gast.Ref("Item")), gast.Ref("Item")))),
+		mk(r("S", gast.S(gast.Ref("List"), gast.NotE(gast.Dot()))), r("List", gast.C(gast.S(gast.Ref("List"), gast.L(","), gast.Ref("Item")), gast.Ref("Item"))), r("Item", gast.Cl(gast.Chars("ab"))), r("List", gast.S(gast.Ref("Item"), gast.Star(gast.S(gast.L(","), gast.Ref("Item")))))),
 		// a LABELLED nullable prefix before the recursive reference, in an alternative after a nullable one
 		// that can still fail at run time / in a recovery expression after a nullable guarded expression
 		mk(r("Expr", gast.S(gast.C(gast.AndE(gast.L("(")), gast.S(gast.Lab("n", gast.Opt(gast.L("-"))), gast.Ref("Expr"))), gast.Ref("Atom"))), r("Atom", gast.Cl(gast.Chars("ab(")))),
